@@ -534,6 +534,15 @@ func (o *objectGoReflect) setReflectValue(v reflect.Value) {
 	o.fieldsValue = v
 	o.origValue = v
 	o.methodsValue = v.Addr()
+	// the cached wrappers of nested struct/array/slice fields move with their owner
+	for name, w := range o.valueCache {
+		if f := o._getField(name); f.IsValid() {
+			w.setReflectValue(f)
+		} else {
+			copyReflectValueWrapper(w)
+			delete(o.valueCache, name)
+		}
+	}
 }
 
 func (o *objectGoReflect) esValue() Value {
